@@ -19,6 +19,28 @@ CHECKS = {
          "DESIGN.md section 4 C07"),
 }
 
+CHECKS["C12"] = ("TLC exhaustive check of Listeners.tla (lock/channel/goroutine granularity) + TLC schedules replayed step by step "
+    "through verif gates on the real ListenerManager + stress traces judged by ListenersTrace.tla",
+    "service/listeners.go is specified at the granularity of its mutexes, channels, goroutines and the kernel queue; TLC checks "
+    "exactly-once delivery, closed-stays-closed, undisturbed other handles and complete release (socket, goroutines, held "
+    "connections) over every interleaving of the scripted listen/close/accept calls and incoming connections/datagrams. The "
+    "pinned code's variants are kept as negative controls (TLC must find each of the three defects). Conformance: TLC-simulated "
+    "schedules are enforced on the real code through gates at every lock/channel/socket operation and the outcome (API results, "
+    "client-side fate of every connection, re-bindability, goroutines left) is judged by TLC; free-running stress rounds likewise.",
+    "Bounded: 3 threads x <=4 calls, <=3 handles, 2-3 connections/datagrams, 3 keys; select nondeterminism can make a schedule "
+    "diverge (counted, never an alarm). Trusts runtime.Stack wait states and loopback TCP/UDP semantics.",
+    "DESIGN.md section 4 C12, 9a, 9d")
+CHECKS["C13"] = ("TLC deadlock check of Listeners.tla + TLC schedules (incl. the pinned code's deadlock counter-examples) replayed through "
+    "verif gates on the real ListenerManager + stress with a watchdog, judged by ListenersTrace.tla",
+    "Deadlock freedom of the manager / shared-listener / handle locking discipline is checked by TLC's deadlock detection over all "
+    "interleavings of concurrent listen and close scripts (stream and packet, same and different addresses). The model is bound to "
+    "the code by step-by-step schedule replay through gates placed before every Lock(), channel operation and socket call; a call "
+    "that does not return within the watchdog, with goroutines parked in sync.Mutex.Lock, is the verdict. The lock-order inversion "
+    "of the pinned commit is kept as a negative control and as regression schedules.",
+    "Bounded: 3 threads, 3 keys, <=4 calls per thread exhaustively; more threads only in stress. A deadlock needs the watchdog "
+    "(2 s) to expire with listen/close calls outstanding; slow machines cannot cause it because gates are opened first.",
+    "DESIGN.md section 4 C13, 9a, 9d")
+
 PENDING = {}
 
 def main():
